@@ -46,7 +46,9 @@ import os
 import pickle
 import re
 import shutil
+import signal
 import types
+import zlib
 
 from lib import repo, tla
 
@@ -68,8 +70,12 @@ K_INDEX_TRUNC = "C18:refresh:skips-image-with-incomplete-index"
 # stream buffer, at the flush of the buffered tail in close() otherwise), or the rename onto the item's name failing
 # realisations of the spec action Crash: "kill" = publish() runs in a forked child which dies by os._exit(137) at the crash
 # point (no except / finally / with of the code under test runs, userspace buffers are lost; the parent examines the disk
-# and the re-run happens in another process); "interrupt" = a BaseException (KeyboardInterrupt-like) unwinds publish()
-CRASH_VARIANTS = ["kill", "interrupt"]
+# and the re-run happens in another process); the others = an exception of that class arrives at the crash point and unwinds
+# publish() - KeyboardInterrupt is delivered as a real SIGINT (signal.raise_signal) - once, or ("*2") again at the next
+# transfer should publish() carry on.  Whatever publish() does with it, the sentences are judged on the disk afterwards.
+CRASH_CLASSES = ["KeyboardInterrupt", "SystemExit", "GeneratorExit", "MemoryError", "Exception", "BaseException"]
+CRASH_ALWAYS = ["kill", "KeyboardInterrupt"]
+CRASH_ROTATING = [c + m for c in CRASH_CLASSES for m in ("", "*2") if c + m not in CRASH_ALWAYS]
 NAMES = {"data.png", INDEX, "index_rel.wtml", "thumb.jpg", "0_0.png"}
 STORE_VARIANTS = ["fsize:0", "fsize:half", "fsize:tail", "replace"]
 STORE_VARIANTS_SMALL = ["fsize:tail", "replace"]     # an item that fits into the stream buffer: every write failure surfaces at close()
@@ -114,7 +120,8 @@ def skey(s):
 class Graph(object):
     """The state graph TLC printed: nodes = spec states, edges labelled with the set of actions that relate them."""
 
-    def __init__(self, edges):
+    def __init__(self, edges, full=True):
+        self.full = full        # every Crash variant at every crash point (else: the two standing ones + one in rotation)
         self.state = {}
         self.adj = {}
         indeg = set()
@@ -147,7 +154,7 @@ class Graph(object):
                         sk = self.state[k]
                         big = a == "StoreFail" and sk["order"][sk["k"] - 1] == BIG
                         for v in ((STORE_VARIANTS if big else STORE_VARIANTS_SMALL) if a == "StoreFail" else
-                                  CRASH_VARIANTS if a == "Crash" else [None]):
+                                  self.crash_variants(k) if a == "Crash" else [None]):
                             out.append((list(acc), v))
                     else:
                         dfs(t, acc)
@@ -155,6 +162,17 @@ class Graph(object):
         dfs(key, [])
         self._segs[key] = [Plan(self, key, seg, v) for seg, v in out]
         return self._segs[key]
+
+
+def _crash_variants(self, k):
+    if self.full:
+        return CRASH_ALWAYS + CRASH_ROTATING
+    sk = self.state[k]
+    r = zlib.crc32(json.dumps([sk["listing"], sk["pc"], sk["k"], sk["faults"], sk["cur"]]).encode())
+    return CRASH_ALWAYS + [CRASH_ROTATING[r % len(CRASH_ROTATING)]]
+
+
+Graph.crash_variants = _crash_variants
 
 
 class Plan(object):
@@ -211,6 +229,14 @@ class Plan(object):
 
 class SimulatedCrash(BaseException):
     pass
+
+
+class InterruptedTransfer(Exception):
+    pass
+
+
+CRASH_CLASS = {"KeyboardInterrupt": KeyboardInterrupt, "SystemExit": SystemExit, "GeneratorExit": GeneratorExit,
+               "MemoryError": MemoryError, "Exception": InterruptedTransfer, "BaseException": SimulatedCrash}
 
 
 class TransferFailed(OSError):
@@ -587,12 +613,15 @@ class Bench(object):
                     if bad:
                         alarms.append((K_INDEX_EARLY, "put_item(%r, 'index.wtml') began while %s of that image %s not completely in the store"
                                        % (path[0], bad, "is" if len(bad) == 1 else "are")))
+                if st.get("again"):
+                    st["again"] = False         # publish() carried on after the first one: it arrives once more
+                    throw()
                 if exp is not None:
                     compare(exp["pre"], "at entry of put #%d %s" % (n + 1, list(path)))
                 flt = plan.fault if (plan.fault and plan.fault["ordinal"] == n) else None
                 exc = None
                 if flt:
-                    exc = (die if (flt["kind"] == "Crash" and send) else SimulatedCrash("crash") if flt["kind"] == "Crash" else
+                    exc = (die if (flt["kind"] == "Crash" and send) else throw if flt["kind"] == "Crash" else
                            TransferFailed(errno.ENOSPC, "No space left on device") if flt["kind"] == "Refuse" else
                            TransferFailed(errno.EIO, "Input/output error") if flt["kind"] == "StoreFail" else
                            TransferFailed("transfer failed"))
@@ -659,21 +688,40 @@ class Bench(object):
             send(result("crashed", None))
             os._exit(137)
 
+        variant = (plan.fault or {}).get("variant") or ""
+        crash_cls = CRASH_CLASS.get(variant.split("*")[0]) if (plan.fault and plan.fault["kind"] == "Crash") else None
+
+        def throw():
+            if not st["injected"] and variant.endswith("*2"):
+                st["again"] = True
+            st["injected"] = True
+            if crash_cls is KeyboardInterrupt:
+                signal.raise_signal(signal.SIGINT)      # a real ^C: the interpreter raises KeyboardInterrupt here
+                for _ in range(100):
+                    pass
+            raise crash_cls("injected at the crash point")
+
         mgr = copy.copy(self.template)          # a re-run is a new process: a fresh manager object
         mgr._pipeio = Proxy(mgr._pipeio)
         outcome, err = "returned", None
         os.listdir = listdir
+        old_int = signal.signal(signal.SIGINT, signal.default_int_handler) if crash_cls is KeyboardInterrupt else None
         try:
             with contextlib.redirect_stdout(io.StringIO()), contextlib.redirect_stderr(io.StringIO()):
                 mgr.publish()
-        except SimulatedCrash:
-            outcome = "crashed"
         except TransferFailed:
             outcome = "failed"
-        except Exception as e:  # noqa - the real code gave up by itself
-            outcome, err = "raised", "%s: %s" % (type(e).__name__, e)
+        except BaseException as e:  # noqa
+            if crash_cls is not None and st["injected"] and type(e) is crash_cls:
+                outcome = "crashed"
+            elif isinstance(e, Exception):      # the real code gave up by itself
+                outcome, err = "raised", "%s: %s" % (type(e).__name__, e)
+            else:
+                raise
         finally:
             os.listdir = self._listdir
+            if old_int is not None:
+                signal.signal(signal.SIGINT, old_int)
         if st["sync"] and not st["listed_top"]:
             st["sync"] = False
             drift("publish() did not list approved/ through os.listdir: the listing order of the behaviour could not be imposed")
@@ -823,7 +871,9 @@ class Walker(object):
                 "rename" if f["variant"] == "replace" else "write (real file-size limit, %s)" % f["variant"], f["image"], f["file"])
         if f["kind"] == "Refuse":
             return "store refusing (ENOSPC) to create the file for %s/%s" % (f["image"], f["file"])
-        return "%s %s the transfer of %s/%s" % (("crash (%s)" % {"kill": "process killed, os._exit", "interrupt": "BaseException"}.get(f.get("variant"), "?"))
+        return "%s %s the transfer of %s/%s" % (("crash (%s)" % ("process killed, os._exit" if f.get("variant") == "kill" else
+                                                               "%s%s unwinding publish()" % (f.get("variant", "?").split("*")[0],
+                                                                                            ", delivered again at the next transfer" if "*2" in f.get("variant", "") else "")))
                                                 if f["kind"] == "Crash" else "failed transfer",
                                                 {"entry": "before", "during": "during", "exit": "after"}[f["where"]], f["image"], f["file"])
 
@@ -1022,14 +1072,14 @@ def long_name_scenario(ctx):
                                     "judged": "safety on the real disk only (index.wtml / published imply all files complete)"})
 
 
-def dump_graph(ctx, tlc, configs, budget, atomic, name, r=None):
+def dump_graph(ctx, tlc, configs, budget, atomic, name, r=None, full=True):
     if r is None:
         r = tlc(name, configs, cfg(budget, atomic, ["TypeOK"], [], emit=True), workers=1)
     edges = r.json_lines("E")
     # every generated successor is printed once (again when TLC re-evaluates the constraint for liveness checking)
     if len(edges) < r.generated - len(configs):
         ctx.machinery("edge dump incomplete: %d edges printed, TLC generated %d states" % (len(edges), r.generated))
-    graph = Graph(edges)
+    graph = Graph(edges, full=full)
     if len(graph.state) != r.distinct:
         ctx.machinery("edge dump incomplete: %d states in the dump, TLC found %d distinct states" % (len(graph.state), r.distinct))
     if len(graph.roots) != len(configs):
@@ -1125,13 +1175,13 @@ def run(ctx):
     with ThreadPoolExecutor(4) as ex:
         futs = {k: ex.submit(tlc, k, v[0], v[1], **v[2]) for k, v in jobs.items()}
         gfuts = {tag: ex.submit(dump_graph, ctx, tlc, configs, budget, atomic,
-                                "MCPublish_%s_graph_%s_f%d" % (tag, "atomic" if atomic else "inplace", budget))
+                                "MCPublish_%s_graph_%s_f%d" % (tag, "atomic" if atomic else "inplace", budget), None, not ctx.quick)
                  for tag, budget, configs in suites if tag not in gsrc}
         res = {k: f.result() for k, f in futs.items()}
         graphs = {k: f.result() for k, f in gfuts.items()}
     for tag, budget, configs in suites:
         if tag in gsrc:
-            graphs[tag] = dump_graph(ctx, tlc, configs, budget, atomic, gsrc[tag], r=res[gsrc[tag]])
+            graphs[tag] = dump_graph(ctx, tlc, configs, budget, atomic, gsrc[tag], r=res[gsrc[tag]], full=not ctx.quick)
     r2 = res["MCPublish_%s_inplace_f2_refuted" % tag0]
     if r2.violated not in ("QIndexImpliesAll", "QRefreshSafe"):
         ctx.machinery("TLC was expected to refute QIndexImpliesAll for the in-place store with 2 faults, it reports %r" % (r2.violated,))
